@@ -2,3 +2,58 @@
 from __future__ import annotations
 
 from .findings import predicate  # noqa: F401
+
+
+@predicate("c08_mirror_mid_on_shared_boundary")
+def _c08_mirror(sub: dict, params: dict) -> bool:
+    """Mirror-law sub-case (map, order, pos, assoc): the position, after the first of the two maps, lies on a
+    boundary shared by two adjacent ranges of the second map (where the first containing range decides)."""
+    from .ref.stepmap import RefMap
+
+    if sub.get("mode") != "mirror":
+        return False
+    ref = RefMap.from_stored(sub["ranges"], sub["inverted"])
+    first = ref if sub["order"] == "M,I" else ref.inverse()
+    second = first.inverse()
+    mid = first.map(sub["pos"], sub["assoc"])
+    tr = second.triples
+    return any(a[0] + a[1] == b[0] == mid for a, b in zip(tr, tr[1:]))
+
+
+@predicate("c08_history_mid_on_shared_boundary")
+def _c08_history(sub: dict, params: dict) -> bool:
+    """Mirrored history + inversion: somewhere along the way the position sits on a boundary shared by two
+    adjacent ranges of the map about to be applied (followed without mirror jumps and with them)."""
+    from .ref.stepmap import RefMap, RefMapping
+
+    if sub.get("mode") != "mirror-history":
+        return False
+    refs = [RefMap.from_stored(r, False) for r in sub["history"]]
+    if sub["undo_first"]:
+        refs = [r.inverse() for r in reversed(refs)]
+    n = len(refs)
+    seq = refs + [r.inverse() for r in reversed(refs)]
+    mirror = {}
+    for j in range(n):
+        mirror[j] = 2 * n - 1 - j
+        mirror[2 * n - 1 - j] = j
+
+    def on_shared(m: RefMap, pos: int) -> bool:
+        tr = m.triples
+        return any(a[0] + a[1] == b[0] == pos for a, b in zip(tr, tr[1:]))
+
+    pos = sub["pos"]
+    i = 0
+    while i < len(seq):
+        if on_shared(seq[i], pos):
+            return True
+        r = seq[i].result(pos, sub["assoc"])
+        if r.recover is not None and mirror.get(i, -1) > i:
+            corr = mirror[i]
+            pos = seq[corr].recover(r.recover)
+            i = corr + 1
+            continue
+        pos = r.pos
+        i += 1
+    _ = RefMapping
+    return False
